@@ -97,9 +97,10 @@ type Property struct {
 	Level       string // exploration | fault_enumeration | ...
 	Rule        string
 	Assumptions []string
-	Race        bool  // run workers from the -race build
-	MemLimitKB  int64 // ulimit -v for plain workers (0 = none)
-	Workers     int   // max parallel workers (0 = default)
+	Race        bool     // run workers from the -race build
+	MemLimitKB  int64    // ulimit -v for plain workers (0 = none)
+	Workers     int      // max parallel workers (0 = default)
+	Env         []string // extra environment for worker processes
 	// CaseTimeoutS is the generous per-case watchdog in seconds (default 600).
 	CaseTimeoutS int
 	// Classify names the structural class of a case (used in the signature of a worker death).
